@@ -50,6 +50,15 @@ fn start_doc(k: usize) -> Buffer {
             l.properties.color = Some(Color::new(1, 2, 3));
             b.layers.push(l);
         }
+        5 => {
+            // rows are stored lazily: the layer is 8x6 but only its first two rows exist in memory
+            let mut l = Layer::new("lazy", (8, 6));
+            l.properties.has_alpha_channel = true;
+            l.set_char((1, 0), Cell::new(b'x' as u32, 2, 0).to_char());
+            l.set_char((2, 1), Cell::new(b'y' as u32, 3, 0).to_char());
+            b.set_size((8, 6));
+            b.layers.push(l);
+        }
         3 => {
             // the top layer was shrunk: it still holds content outside its size
             let mut l = Layer::new("shrunk", (6, 4));
@@ -82,7 +91,14 @@ fn start_doc(k: usize) -> Buffer {
     b
 }
 
-const DOCS: [&str; 5] = ["1 layer 8x4", "base + offset alpha layer", "base + hidden + locked layer", "base + shrunk layer with hidden content", "custom palette, 2 fonts, chars layer, sauce"];
+const DOCS: [&str; 6] = [
+    "1 layer 8x4",
+    "base + offset alpha layer",
+    "base + hidden + locked layer",
+    "base + shrunk layer with hidden content",
+    "custom palette, 2 fonts, chars layer, sauce",
+    "base + tall layer with lazily stored rows, caret on its last row",
+];
 
 // ------------------------------------------------------------------ operations
 
@@ -460,9 +476,52 @@ fn apply(s: &mut EditState, op: &Op) -> Result<bool, vharness::PanicRec> {
     catch(|| (op.f)(s).is_ok())
 }
 
+fn new_state(doc: usize) -> EditState {
+    let mut s = EditState::from_buffer(start_doc(doc));
+    if doc == 5 {
+        let _ = s.set_current_layer(1);
+        s.get_caret_mut().set_position((0, 5).into());
+    }
+    s
+}
+
+/// every operation as the "new edit after an undo": history h1..hn-1, undo, hn - if hn recorded an edit the redo history is gone
+fn new_edit_discards_redo(ops: &[Op], doc: usize, hist: &[usize], ctx: &mut Ctx) {
+    let n = hist.len();
+    if n < 2 || !ops[hist[n - 2]].edit {
+        return;
+    }
+    let mut s = new_state(doc);
+    for &oi in &hist[..n - 1] {
+        if !matches!(apply(&mut s, &ops[oi]), Ok(true)) {
+            return;
+        }
+    }
+    if !s.can_undo() || !matches!(catch(|| s.undo()), Ok(Ok(()))) || !s.can_redo() {
+        return;
+    }
+    let len = s.undo_stack_len();
+    if !matches!(apply(&mut s, &ops[hist[n - 1]]), Ok(true)) || s.undo_stack_len() <= len {
+        return; // the last step failed or is not an edit
+    }
+    ctx.count("transitions", n as u64 + 2);
+    ctx.count("new_edit_after_undo_checks", 1);
+    let before = snapshot(s.get_buffer());
+    let can = s.can_redo();
+    let _ = catch(|| s.redo());
+    let after = snapshot(s.get_buffer());
+    if can || before != after {
+        ctx.violation(
+            format!("diff:redo:new-edit-keeps-redo-history:{}", ops[hist[n - 1]].name),
+            json!({"document": DOCS[doc], "history": hist.iter().take(n - 1).map(|i| ops[*i].name).collect::<Vec<_>>(), "then": "undo", "new_edit": ops[hist[n - 1]].name, "can_redo_after_edit": can, "redo_changed_the_document": before != after}),
+        );
+    }
+}
+
 fn run_history(ops: &[Op], doc: usize, hist: &[usize], ctx: &mut Ctx) {
     ctx.count("evaluations", 1);
-    let mut s = EditState::from_buffer(start_doc(doc));
+    new_edit_discards_redo(ops, doc, hist, ctx);
+    let mut s = new_state(doc);
     let mut snaps: Vec<(usize, Snap)> = vec![(s.undo_stack_len(), snapshot(s.get_buffer()))];
     let mut applied: Vec<usize> = Vec::new();
     let hist_json = |n: usize| json!({"document": DOCS[doc], "history": hist.iter().take(n).map(|i| ops[*i].name).collect::<Vec<_>>()});
